@@ -282,7 +282,7 @@ func loopSourceOf(fn *ssa.Function, lp *loopInfo) (ssa.Value, bool) {
 			if nx, ok := in.(*ssa.Next); ok {
 				if rg, ok := nx.Iter.(*ssa.Range); ok {
 					// only if this Next belongs to this loop's head region (innermost)
-					if innermostLoop(naturalLoops(fn), blk) == lp {
+					if il := innermostLoop(naturalLoops(fn), blk); il != nil && il.head == lp.head {
 						return rg.X, true
 					}
 				}
